@@ -13,6 +13,11 @@ Val(out) == IF Has(out, "val") THEN out.val ELSE <<>>
 
 \* C05: accept exactly the well-formed inputs and read the RFC values
 AgreeDec(in, out) == Has(out, "ok") /\ Agrees6(Dec6(in), out.ok, Val(out))
+\* the concrete entry points (MessageFromBytes, RelayMessageFromBytes): each accepts the messages of its own header family
+\* exactly as the general decoder does, and refuses every message of the other family
+AgreeDecEntry(e) == LET relayIn == Len(e["in"]) >= 1 /\ e["in"][1] \in {12, 13} IN
+                    IF (e.ep = "relay") = relayIn THEN AgreeDec(e["in"], e.out)
+                    ELSE Has(e.out, "ok") /\ ~e.out.ok
 AgreeDecOpt(e) == Has(e.out, "ok") /\ Agrees6(DecOpt("main", e.code, e["in"]), e.out.ok, Val(e.out))
 
 \* C02: the emitted bytes are the RFC layout of the value; decoding them gives the value back
@@ -30,6 +35,7 @@ AgreeFix(e) == LET d == Dec6(e["in"]) IN
                               /\ e.b2 = e.b1                        \* encoding again reproduces the bytes
 
 Agree(e) == CASE e.op = "Dec6" -> AgreeDec(e["in"], e.out)
+              [] e.op = "Dec6E" -> AgreeDecEntry(e)
               [] e.op = "DecOpt6" -> AgreeDecOpt(e)
               [] e.op = "RT6" -> AgreeRT(e)
               [] e.op = "Fix6" -> AgreeFix(e)
